@@ -7,7 +7,7 @@ import SciVerif.Tie.Pins
 `extractAuditInfosByID`. -/
 namespace SciVerif.Tie
 -- functions the model relies on without an obligation of its own naming them (pinned by bin/mkpins):
--- PIN-ALSO: Cmd.mergeStringAuditInfoMaps Cmd.auditInfoToHTML Cmd.auditInfoToBash Cmd.auditInfoToTeX Cmd.formatTaskHTML
+-- PIN-ALSO: Cmd.mergeStringAuditInfoMaps Cmd.auditInfoToHTML Cmd.auditInfoToBash Cmd.auditInfoToTeX Cmd.formatTaskHTML Cmd.parseArgsAudit2X Cmd.parseFlags Cmd.main
 open SciVerif.Generated SciVerif.Report
 
 theorem generated_sort_sem : sortSem = .sliceSort := by decide
@@ -39,6 +39,7 @@ theorem c20_on_source (t : AT) (rs : List Rec) (hperm : rs.Perm (vals (extract t
 
 
 
+
 -- BEGIN PINS (written by bin/mkpins; do not edit by hand)
 /-- the Go functions this property's model and obligations were written against have exactly the
 pinned skeletons (SHA-256 prefix of the atom list) -/
@@ -50,7 +51,10 @@ theorem pinned_skeletons_c20 :
      ("Cmd.auditInfoToTeX", "941e026968db81bd"),
      ("Cmd.extractAuditInfosByID", "fd28dc4ce98be517"),
      ("Cmd.formatTaskHTML", "9fb5b5a88d6120b2"),
+     ("Cmd.main", "a8e0f10b19e7bfe1"),
      ("Cmd.mergeStringAuditInfoMaps", "d031cc7d0e121947"),
+     ("Cmd.parseArgsAudit2X", "af1f62b9e216f030"),
+     ("Cmd.parseFlags", "729e280c375698e8"),
      ("Cmd.sortAuditInfosByStartTime", "e0c98edf32a42d1b")] = true := by decide
 -- END PINS
 
